@@ -145,33 +145,13 @@ func e2e(run *lib.Run, st *lib.Stats, rng *lib.Rng, f *fixture.Fixture) {
 		if ok {
 			accepted++
 			st.Hist["e2e:accepted"]++
-			// the one recorded class: ActivateProducer above NFTStartHeight, whose input and output
-			// sanity checks are empty (known_findings.jsonl); everything else keeps the general signature
-			aboveNFT := tx.TxType() == common2.ActivateProducer && height > nft
-			dup := map[string]bool{}
-			withMult := new(big.Int)
-			hasDup := false
-			for _, i := range tx.Inputs() {
-				if dup[i.ReferKey()] {
-					hasDup = true
-				}
-				dup[i.ReferKey()] = true
-				withMult.Add(withMult, big.NewInt(genesisValue)) // every input of these cases is the genesis output
-			}
+			// distinct spent outputs only: an outpoint referenced twice is still one output
 			if so.Cmp(si) > 0 {
-				if aboveNFT && hasDup && so.Cmp(withMult) <= 0 {
-					st.Fail("c01:activate-above-nft:duplicate-input", "ActivateProducer above NFTStartHeight referencing one outpoint twice passed CheckTransactionSanity and CheckTransactionContext with outputs worth twice the spent output", in)
-				} else {
-					st.Fail("c01:accept-inflation", "transaction passed CheckTransactionSanity and CheckTransactionContext on the chain fixture although its outputs exceed the outputs it spends (exact integers)", in)
-				}
+				st.Fail("c01:accept-inflation", "transaction passed CheckTransactionSanity and CheckTransactionContext on the chain fixture although its outputs exceed the (distinct) outputs it spends (exact integers)", in)
 			}
 			for _, v := range outVals {
 				if v < 0 {
-					if aboveNFT {
-						st.Fail("c01:activate-above-nft:negative-output", "ActivateProducer above NFTStartHeight with a negative output passed CheckTransactionSanity and CheckTransactionContext (a spendable output is created against a negative one)", in)
-					} else {
-						st.Fail("c01:negative-output", "transaction with a negative output passed CheckTransactionSanity and CheckTransactionContext", in)
-					}
+					st.Fail("c01:negative-output", "transaction with a negative output passed CheckTransactionSanity and CheckTransactionContext", in)
 					break
 				}
 			}
@@ -192,11 +172,11 @@ func e2e(run *lib.Run, st *lib.Stats, rng *lib.Rng, f *fixture.Fixture) {
 	for _, h := range heights {
 		for oi, ov := range outSets {
 			// no inputs, no programs
-			tx := functions.CreateTransaction(0, common2.ActivateProducer, 0, activatePayload(), []*common2.Attribute{},
+			tx := functions.CreateTransaction(common2.TxVersion09, common2.ActivateProducer, 0, activatePayload(), []*common2.Attribute{},
 				[]*common2.Input{}, mkOuts(ov), 0, []*program.Program{})
 			check("activate/zero-cost", tx, h, nil, ov)
 			// no inputs, but a program
-			tx = functions.CreateTransaction(0, common2.ActivateProducer, 0, activatePayload(), []*common2.Attribute{},
+			tx = functions.CreateTransaction(common2.TxVersion09, common2.ActivateProducer, 0, activatePayload(), []*common2.Attribute{},
 				[]*common2.Input{}, mkOuts(ov), 0, []*program.Program{{Code: f.Keys[0].Acc.RedeemScript, Parameter: []byte{0}}})
 			check("activate/no-input-with-program", tx, h, nil, ov)
 			// spending the genesis output (owner Keys[0]), signed
